@@ -33,6 +33,21 @@ pub fn circ8(n: usize) -> CircSpec {
     CircSpec { input_regs: vec![1; n], insts, max_reg_count: n + 3, output_regs: vec![prev, b], and_ops: 8 }
 }
 
+/// chain of `k` AND gates over the parties' single input bits
+pub fn circ_ands(n: usize, k: usize) -> CircSpec {
+    let mut insts = vec![];
+    for p in 0..n {
+        insts.push((p as u32, GOp::Input { party: p as u32, input: 0 }));
+    }
+    let b = n as u32;
+    insts.push((b, GOp::Xor(0, 1)));
+    for i in 0..k as u32 {
+        insts.push((b + 1, GOp::And(b, i % n as u32)));
+        insts.push((b, GOp::Xor(b + 1, (i + 1) % n as u32)));
+    }
+    CircSpec { input_regs: vec![1; n], insts, max_reg_count: n + 2, output_regs: vec![b, b + 1], and_ops: k }
+}
+
 const ASHARE: [&str; 3] = ["fashare comm", "fashare ver", "fashare di_bi"];
 const LAAND: [&str; 4] = ["haand", "flaand", "flaand comm", "flaand hash"];
 
@@ -64,13 +79,29 @@ pub fn entries(base: &MpcCase, corrupt: usize, all_idx: bool, salt: usize) -> Re
 /// `only_equivocation`: keep only the broadcast-equivocation rows (used for n = 4)
 pub fn entries_filtered(base: &MpcCase, corrupt: usize, all_idx: bool, salt: usize, only_equivocation: bool) -> Result<Vec<Entry>, String> {
     let tmpl = run_mpc(base, Adversary::default(), &ExecCfg { record_probes: false, ..Default::default() });
-    check_codec(&tmpl.res.msgs)?;
+    if let Err(e) = check_codec(&tmpl.res.msgs) {
+        eprintln!("note: wire grammar is stale for this tree ({e}); table rows of such messages are skipped");
+    }
     if !tmpl.res.outcomes.iter().all(|o| o.is_ok()) {
         return Err("template run failed".into());
     }
     let n = base.n();
     let mut out: Vec<Entry> = vec![];
     let honest: Vec<usize> = (0..n).filter(|p| *p != corrupt).collect();
+    // equivocation rows are generated at the first and at the last element of the broadcast vector
+    // (a digest that does not cover the whole vector would miss the latter)
+    let last_too = |out: &mut Vec<Entry>, first: &Entry, len: usize, path_tail: Vec<usize>, m: TreeMut| {
+        if len > 1 {
+            let mut e = first.clone();
+            if let Some(f) = e.attack.faults.first_mut() {
+                let mut path = vec![len - 1];
+                path.extend(path_tail);
+                f.mutation = MsgMut::Tree { path, m };
+            }
+            e.row = format!("{} (last element)", e.row);
+            out.push(e);
+        }
+    };
     for m in tmpl.res.msgs.iter().filter(|m| m.from == corrupt) {
         let k = m.sender_idx;
         let Some(v) = decode(m) else { continue };
@@ -144,8 +175,11 @@ pub fn entries_filtered(base: &MpcCase, corrupt: usize, all_idx: bool, salt: usi
                     e.victims = honest.clone();
                     // an equivocation must be noticed in the echo round itself
                     e.whitelist = wl(&[m.label.as_str()]);
+                    last_too(&mut out, &e, len, vec![0], TreeMut::FlipBit(0));
                     out.push(e);
                 }
+                out.push(one("aBit: two test bits altered", MsgMut::Multi(vec![(vec![0, 0], TreeMut::FlipBit(0)), (vec![len - 1, 0], TreeMut::FlipBit(0))]), w.clone(), false));
+                out.push(one("aBit: same bit of two test MACs altered", MsgMut::Multi(vec![(vec![1, 1], TreeMut::FlipBit(3)), (vec![2, 1], TreeMut::FlipBit(3))]), w.clone(), false));
                 if first_copy {
                     out.push(everywhere("aBit: test bit altered", tm(vec![2, 0], TreeMut::FlipBit(0)), w, false));
                 }
@@ -161,6 +195,7 @@ pub fn entries_filtered(base: &MpcCase, corrupt: usize, all_idx: bool, salt: usi
                     e.victims = honest.clone();
                     // an equivocation must be noticed in the echo round itself
                     e.whitelist = wl(&[m.label.as_str()]);
+                    last_too(&mut out, &e, len, vec![0], TreeMut::FlipBit(0));
                     out.push(e);
                 }
             }
@@ -186,6 +221,7 @@ pub fn entries_filtered(base: &MpcCase, corrupt: usize, all_idx: bool, salt: usi
                     e.victims = honest.clone();
                     // an equivocation must be noticed in the echo round itself
                     e.whitelist = wl(&[m.label.as_str()]);
+                    last_too(&mut out, &e, len, vec![], TreeMut::FlipBit(0));
                     out.push(e);
                 }
             }
@@ -194,11 +230,13 @@ pub fn entries_filtered(base: &MpcCase, corrupt: usize, all_idx: bool, salt: usi
                 for r in indices(len, all_idx, salt) {
                     out.push(one("aShare: opened key sum altered", tm(vec![r], TreeMut::FlipBit((r as u32 * 3) % 128)), w.clone(), false));
                 }
+                out.push(one("aShare: same bit of two opened key sums altered", MsgMut::Multi(vec![(vec![0], TreeMut::FlipBit(7)), (vec![len - 1], TreeMut::FlipBit(7))]), w.clone(), false));
                 if n >= 3 {
                     let mut e = one("broadcast equivocation: fashare di_bi", tm(vec![0], TreeMut::FlipBit(0)), w, false);
                     e.victims = honest.clone();
                     // an equivocation must be noticed in the echo round itself
                     e.whitelist = wl(&[m.label.as_str()]);
+                    last_too(&mut out, &e, len, vec![], TreeMut::FlipBit(0));
                     out.push(e);
                 }
             }
@@ -223,6 +261,7 @@ pub fn entries_filtered(base: &MpcCase, corrupt: usize, all_idx: bool, salt: usi
                     e.victims = honest.clone();
                     // an equivocation must be noticed in the echo round itself
                     e.whitelist = wl(&[m.label.as_str()]);
+                    last_too(&mut out, &e, len, vec![0], TreeMut::FlipBit(0));
                     out.push(e);
                 }
             }
@@ -236,6 +275,7 @@ pub fn entries_filtered(base: &MpcCase, corrupt: usize, all_idx: bool, salt: usi
                     e.victims = honest.clone();
                     // an equivocation must be noticed in the echo round itself
                     e.whitelist = wl(&[m.label.as_str()]);
+                    last_too(&mut out, &e, len, vec![], TreeMut::FlipBit(0));
                     out.push(e);
                 }
             }
@@ -244,11 +284,15 @@ pub fn entries_filtered(base: &MpcCase, corrupt: usize, all_idx: bool, salt: usi
                 for l in indices(len, all_idx, salt) {
                     out.push(one("LaAND: check value altered", tm(vec![l], TreeMut::FlipBit(7)), w.clone(), false));
                 }
+                if len > 1 {
+                    out.push(one("LaAND: same bit of two check values altered", MsgMut::Multi(vec![(vec![0], TreeMut::FlipBit(7)), (vec![len - 1], TreeMut::FlipBit(7))]), w.clone(), false));
+                }
                 if n >= 3 {
                     let mut e = one("broadcast equivocation: flaand hash", tm(vec![0], TreeMut::FlipBit(0)), w, false);
                     e.victims = honest.clone();
                     // an equivocation must be noticed in the echo round itself
                     e.whitelist = wl(&[m.label.as_str()]);
+                    last_too(&mut out, &e, len, vec![], TreeMut::FlipBit(0));
                     out.push(e);
                 }
             }
@@ -259,6 +303,12 @@ pub fn entries_filtered(base: &MpcCase, corrupt: usize, all_idx: bool, salt: usi
                         out.push(one("bucket: d-value bit altered", tm(vec![j, 0, mm], TreeMut::FlipBit(0)), w.clone(), false));
                         out.push(one("bucket: d-value MAC altered", tm(vec![j, 1, mm], TreeMut::FlipBit(11)), w.clone(), false));
                     }
+                    // two alterations inside one bucket that would cancel in an aggregated check
+                    for (a, b) in [(0usize, 1usize), (1, 3), (0, 3)] {
+                        out.push(one("bucket: two d-value bits of one bucket altered", MsgMut::Multi(vec![(vec![j, 0, a], TreeMut::FlipBit(0)), (vec![j, 0, b], TreeMut::FlipBit(0))]), w.clone(), false));
+                        out.push(one("bucket: same MAC bit of two d-values of one bucket altered", MsgMut::Multi(vec![(vec![j, 1, a], TreeMut::FlipBit(9)), (vec![j, 1, b], TreeMut::FlipBit(9))]), w.clone(), false));
+                    }
+                    out.push(one("bucket: all d-value bits of one bucket altered", MsgMut::Multi((0..4).map(|mm| (vec![j, 0, mm], TreeMut::FlipBit(0))).collect()), w.clone(), false));
                     out.push(one("bucket: d-value vectors emptied", MsgMut::Multi(vec![(vec![j, 0], TreeMut::LenZero), (vec![j, 1], TreeMut::LenZero)]), w.clone(), false));
                     out.push(one("bucket: d-value vectors shortened", MsgMut::Multi(vec![(vec![j, 0], TreeMut::LenMinus1), (vec![j, 1], TreeMut::LenMinus1)]), w.clone(), false));
                 }
@@ -270,6 +320,11 @@ pub fn entries_filtered(base: &MpcCase, corrupt: usize, all_idx: bool, salt: usi
                     out.push(one("Beaver: e altered", tm(vec![j, 1], TreeMut::FlipBit(0)), w.clone(), false));
                     out.push(one("Beaver: d MAC altered", tm(vec![j, 2], TreeMut::FlipBit(100)), w.clone(), false));
                     out.push(one("Beaver: e MAC altered", tm(vec![j, 3], TreeMut::FlipBit(1)), w.clone(), false));
+                    out.push(one("Beaver: d and e both altered", MsgMut::Multi(vec![(vec![j, 0], TreeMut::FlipBit(0)), (vec![j, 1], TreeMut::FlipBit(0))]), w.clone(), false));
+                    out.push(one("Beaver: same bit of d MAC and e MAC altered", MsgMut::Multi(vec![(vec![j, 2], TreeMut::FlipBit(5)), (vec![j, 3], TreeMut::FlipBit(5))]), w.clone(), false));
+                    if j + 1 < len {
+                        out.push(one("Beaver: d altered in two triples", MsgMut::Multi(vec![(vec![j, 0], TreeMut::FlipBit(0)), (vec![j + 1, 0], TreeMut::FlipBit(0))]), w.clone(), false));
+                    }
                 }
             }
             _ => {}
@@ -393,7 +448,7 @@ fn gen_hist() -> impl Strategy<Value = HistCase> {
 
 pub fn run(tier: Tier, seed: u64) -> i32 {
     let ctx = Ctx::new("C04", tier, seed, "fault_enumeration");
-    ctx.set_rule("(a) systematic enumeration of a hand-derived must-detect table over every verification step of preprocessing (coin-toss commitment/opening incl. consistent lie via tap, base-OT points, KOS correlation column and check values, aBit test bits/MACs, aShare commitments / check bit / MACs / opened key sum incl. committed lie via tap, HaAND/LaAND e/u/commitment/check value, bucket d-values and MACs and vector lengths, Beaver d/e and MACs incl. taps, broadcast equivocation for n=3 and n=4) x every index of the checked vector (n=2) or first/last/rotating index (n=3) x single-recipient, all-recipient and every-batch variants; oracle: the honest recipient returns Err and starts no channel operation outside the round of the altered message. (b) proptest over honest histories under starving / lazy / random schedules: no party starts sending a reveal before it received every other party's commitment of that round. (c) challenge predictor (see extra.predictor). non-trivial = decided table entry / history with a commitment that arrived after the own commitment was sent");
+    ctx.set_rule("(a) systematic enumeration of a hand-derived must-detect table over every verification step of preprocessing (coin-toss commitment/opening incl. consistent lie via tap, base-OT points, KOS correlation column and check values, aBit test bits/MACs, aShare commitments / check bit / MACs / opened key sum incl. committed lie via tap, HaAND/LaAND e/u/commitment/check value, bucket d-values and MACs and vector lengths, Beaver d/e and MACs incl. taps, broadcast equivocation for n=3 and n=4, at the first and the last element of each broadcast vector, incl. 1500-element vectors) x every index of the checked vector (n=2) or first/last/rotating index (n=3) x single-recipient, all-recipient and every-batch variants; oracle: the honest recipient returns Err and starts no channel operation outside the round of the altered message. (b) proptest over honest histories under starving / lazy / random schedules: no party starts sending a reveal before it received every other party's commitment of that round. (c) challenge predictor (see extra.predictor). non-trivial = decided table entry / history with a commitment that arrived after the own commitment was sent");
     ctx.assume("every table row is detected by the correct protocol with probability >= 1-2^-40 independent of secrets; single-index tampering whose consumption depends on a secret bit is excluded (covered by the generic oracle of C02/C08)");
     // (a)
     let mut all = vec![];
@@ -415,6 +470,18 @@ pub fn run(tier: Tier, seed: u64) -> i32 {
         let base = MpcCase::simple(circ8(4), (0..4).map(|p| vec![(seed as usize + p) % 2 == 1]).collect(), 0, vec![0, 1, 2, 3]);
         match entries_filtered(&base, corrupt, false, seed as usize, true) {
             Ok(e) => all.extend(e),
+            Err(e) => {
+                ctx.infra(e);
+                return ctx.finish();
+            }
+        }
+    }
+    // n = 3 with 300 AND gates: the leaky-AND broadcast vectors have 1500 elements
+    {
+        let corrupt = 1 + (seed as usize) % 2;
+        let base = MpcCase::simple(circ_ands(3, 300), vec![vec![true], vec![false], vec![true]], 0, vec![0, 1, 2]);
+        match entries_filtered(&base, corrupt, false, seed as usize, true) {
+            Ok(e) => all.extend(e.into_iter().filter(|e| e.row.contains("flaand"))),
             Err(e) => {
                 ctx.infra(e);
                 return ctx.finish();
